@@ -1,8 +1,10 @@
 #!/usr/bin/env python3
-"""Generates /verif/MANIFEST.json from tools/manifest_src.json (claims) + the list of properties."""
-import json, sys, os
+"""Generates /verif/MANIFEST.json: claims come from `wscheck describe` (the checker's own
+registry of properties), not-applicable reasons from tools/manifest_src.json."""
+import json, os, subprocess
 root = os.path.dirname(os.path.dirname(os.path.abspath(__file__)))
 src = json.load(open(os.path.join(root, 'tools', 'manifest_src.json')))
+desc = json.loads(subprocess.check_output([os.path.join(root, 'bin', 'wscheck'), 'describe']).decode())
 props = [json.loads(l)['id'] for l in open(os.path.join(root, 'properties.jsonl'))]
 ENV = "GOFLAGS=-mod=mod GOPROXY=off GOSUMDB=off GOTOOLCHAIN=local GOWORK=off"
 m = {
@@ -16,18 +18,22 @@ m = {
   "add_only": True,
  },
  "engines": [
-  {"name": "wscheck", "path": "checker", "serves_properties": sorted(src['claims'].keys()),
-   "kind_free_text": "repository-specific static analyser over go/packages + go/ssa (x/tools v0.29.0): finite-cell abstract interpretation (FOLD), CFG path rules, alias/provenance dataflow, structural table checks, compiler bounds-check report"},
+  {"name": "wscheck", "path": "checker", "serves_properties": sorted(p for p in desc if p in props and p not in src.get('withdrawn', [])),
+   "kind_free_text": "repository-specific static analyser over go/packages + go/ssa (x/tools v0.29.0): finite-cell abstract interpretation with path-sensitive forking on uninterpreted atoms (FOLD), CFG/path rules, alias/provenance dataflow, structural table checks, the compiler's bounds-check report"},
  ],
  "checks": [],
  "not_applicable": [],
  "notes": src.get('notes', ''),
 }
+default_tech = "static analysis: finite-cell abstract interpretation of the go/ssa form (interval cells, constant propagation, path-sensitive forking on uninterpreted atoms) compared with a reference table written from the RFC"
 for pid in props:
-    c = src['claims'].get(pid)
-    if c is None:
-        m['not_applicable'].append({"property_id": pid, "reason": src['not_applicable'].get(pid, "no sound static rule built (yet) for this property; see DESIGN.md section 7")})
+    d = desc.get(pid)
+    if d is None or pid in src.get('withdrawn', []):
+        m['not_applicable'].append({"property_id": pid, "reason": src['not_applicable'].get(pid, "no sound static rule built for this property; see DESIGN.md section 7")})
         continue
+    note = "Trusted base: " + "; ".join(d.get('trusted') or []) + "."
+    if d.get('assume'):
+        note += " Assumed / not decided: " + "; ".join(d['assume']) + "."
     m['checks'].append({
         "property_id": pid,
         "quick_cmd": "./bin/wscheck check -property %s -tier quick" % pid,
@@ -35,9 +41,9 @@ for pid in props:
         "evidence_file": "evidence/%s.json" % pid,
         "replay_cmd_template": "./bin/wscheck replay {path}",
         "engine": "wscheck",
-        "level_claimed": {"category": "other", "text": c['text'], "design_ref": c.get('design_ref', 'DESIGN.md section 5, ' + pid)},
-        "level_note": c['note'],
-        "technique": c['technique'],
+        "level_claimed": {"category": "other", "text": "Structural necessary conditions of the property, decided statically for every input / path at once (not the behavioural statement as a whole). " + d['explain'], "design_ref": "DESIGN.md section 5, " + pid},
+        "level_note": note,
+        "technique": d.get('technique') or default_tech,
     })
 json.dump(m, open(os.path.join(root, 'MANIFEST.json'), 'w'), indent=1)
 print("claims:", len(m['checks']), "not_applicable:", len(m['not_applicable']))
